@@ -39,6 +39,15 @@ def groups(n, seed):
                   lamb_min=lm, lamb_init=[1.0, lm][(i // 4) % 2], iteration_limit=30, display_interval=1e9)
         gs.append({"tag": "C15.lambmin", "runs": [{"prob": family_spec(3 * i + 1, rng) if i % 2 else ("repo", ["tame", "hs71"][(i // 2) % 2]),
                                                    "params": pk}]})
+    # all finite bounds of the internal problem on one side (variables and slacks): long steps that overshoot a bound
+    for i in range(max(8, n // 10)):
+        nv = int(rng.integers(2, 5))
+        side = ["lower", "upper"][i % 2]
+        ps = ("convex_qp", int(rng.integers(0, 2 ** 31)), nv, int(rng.integers(0, 3)),
+              {"var_kinds": [side if (j + i) % 3 else "free" for j in range(nv)], "row_kinds": [[side, "eq0"], ["eq"], [side, side]][i % 3]})
+        pk = dict(step_control_type=gen.CTLS[i % 4], lamb_init=float(10.0 ** rng.uniform(-4, -1)), iteration_limit=30, display_interval=1e9,
+                  newton_type=gen.NEWTONS[(i // 4) % 3])
+        gs.append({"tag": "C15.onesided", "runs": [{"prob": ps, "params": pk, "x0_on_bounds": bool(i % 4 == 3)}]})
     return gs
 
 
